@@ -195,6 +195,14 @@ def run(ctx):
             elif "::sum(" in e:
                 ok2 = all(ctx._sat(d, r"discr\(self\)=Multiple$") for d in pc) and "fn darling_core::error::Error::len" in e and "(self as Multiple).0" in e
         if not ok2:
+            # the same sum as a fold: `items.iter().fold(0, |n, e| n + e.len())`
+            for blk, e, pc in rs:
+                m_ = re.search(r"Iterator>::fold\(.*\(self as Multiple\)\.0\)+, 0_usize, closure ([^\[]+)\[", e)
+                if m_ and all(ctx._sat(d, r"discr\(self\)=Multiple$") for d in pc):
+                    for c in ctx.closures_of(f):
+                        if c.key == m_.group(1):
+                            ok2 = ctx.ret_values(c) in (["AddWithOverflow(a2, darling_core::error::Error::len(a3)).0"], ["Add(a2, darling_core::error::Error::len(a3))"])
+        if not ok2:
             # the same sum as a loop: `let mut n = 0; for e in items { n += e.len() }`
             adds = [(e, pc) for blk, e, pc in rs if e.startswith("AddWithOverflow(")]
             zero = [(e, pc) for blk, e, pc in rs if e == "0_usize"]
